@@ -33,7 +33,7 @@ let var_of s = match obj_of s with OVar i -> i | _ -> raise Nospec
 let dim_of s = match obj_of s with ODim (i, d) -> (i, d) | _ -> raise Nospec
 let gobj s = if s = "G" then None else if s.[0] = 'I' then Some (z (int_of_string (String.sub s 1 (String.length s - 1)))) else raise Nospec
 
-let parse toks =
+let rec parse0 toks =
   let t k = List.nth toks k in
   let i k = z (int_of_string (t k)) in
   match List.hd toks with
@@ -79,7 +79,12 @@ let parse toks =
   | "vg.attrs" -> VgAttrs (i 1)
   | "vg.attrinfo" -> VgAttrInfo (i 1, i 2)
   | "vg.findattr" -> VgFindAttr (i 1, unhex (t 2))
+  | "vs.rsetattr" | "vs.rattrs" | "vs.rattrinfo" | "vs.rfindattr" | "vg.rsetattr" | "vg.rattrs" | "vg.rattrinfo" | "vg.rfindattr" ->
+    let o = List.hd toks in
+    HRead (parse0 ((String.sub o 0 3 ^ String.sub o 4 (String.length o - 4)) :: List.tl toks))
   | _ -> raise Nospec
+
+let parse = parse0
 
 (* usage: attr_spec [-m] <history-file>     -m: the whole-file implementation model [mstep] instead of [step] *)
 let () =
